@@ -1,0 +1,22 @@
+//go:build verif
+
+package gtree
+
+import "sync/atomic"
+
+var verifHook atomic.Pointer[func(string)]
+
+// VerifSetPointHook installs f at the pipeline hand-over points (verif builds only).
+func VerifSetPointHook(f func(point string)) {
+	if f == nil {
+		verifHook.Store(nil)
+		return
+	}
+	verifHook.Store(&f)
+}
+
+func verifPoint(name string) {
+	if f := verifHook.Load(); f != nil {
+		(*f)(name)
+	}
+}
